@@ -399,4 +399,146 @@ def same(a, b):
     return norm(a) == norm(b)
 
 
+def end_to_end(transport):
+    """a server session and a CLIENT session of the library wired back to back: what the caller of send_request / send_batch
+    gets for each handler behaviour ("the caller receives ... the value, the handler's own code and message")"""
+    from aiorpcx import session, jsonrpc
+    loop = sessions.new_loop()
+    try:
+        class Srv(session.RPCSession):
+            cost_hard_limit = 0
+
+            async def handle_request(self, request):
+                a = request.args
+                if request.method == 'val':
+                    return a[0]
+                if request.method == 'err':
+                    raise jsonrpc.RPCError(a[0], a[1])
+                if request.method == 'boom':
+                    raise ValueError('boom')
+                if request.method == 'bad':
+                    return {1, 2}
+                if request.method == 'bye':
+                    raise session.ReplyAndDisconnect(jsonrpc.RPCError(a[0], a[1]))
+        sp, sft, srv = sessions.attach(Srv, 'server', transport)
+        cp, cft, cli = sessions.attach(session.RPCSession, 'client', transport)
+        pos = {'s': 0, 'c': 0}
+
+        async def pump():
+            while True:
+                while pos['c'] < len(cft.written):
+                    sp.data_received(cft.written[pos['c']])
+                    pos['c'] += 1
+                while pos['s'] < len(sft.written):
+                    cp.data_received(sft.written[pos['s']])
+                    pos['s'] += 1
+                await asyncio.sleep(0.01)
+        calls = [('val', [5]), ('val', ['']), ('val', [None]), ('val', [[1, {'a': 0}]]), ('err', [5, 'no']), ('err', [5, '']), ('err', [0, 'zero']),
+                 ('err', [-32000, 'x' * 300]), ('err', [1, 'é\n\u2028']), ('err', [10 ** 20, ' ']), ('boom', []), ('bad', [])]
+        res = {}
+
+        async def one(i, m, a):
+            try:
+                res[str(i)] = ['value', await cli.send_request(m, a)]
+            except jsonrpc.RPCError as e:
+                res[str(i)] = ['RPCError', e.code, e.message]
+            except jsonrpc.ProtocolError as e:
+                res[str(i)] = ['ProtocolError', e.code, e.message]
+            except asyncio.CancelledError:
+                res[str(i)] = ['cancelled']
+            except Exception as e:
+                res[str(i)] = ['other', type(e).__name__]
+
+        async def batch():
+            try:
+                async with cli.send_batch() as b:
+                    for m, a in calls:
+                        b.add_request(m, a)
+                res['batch'] = [['RPCError', r.code, r.message] if isinstance(r, jsonrpc.RPCError) else ['value', r] for r in b.results]
+            except asyncio.CancelledError:
+                res['batch'] = ['cancelled']
+            except Exception as e:
+                res['batch'] = ['other', type(e).__name__, str(e)[:80]]
+
+        async def main():
+            await sessions.settle(3)
+            pt = loop.create_task(pump())
+            ts = [loop.create_task(one(i, m, a)) for i, (m, a) in enumerate(calls)] + [loop.create_task(batch())]
+            await asyncio.wait(ts, timeout=20)
+            t2 = loop.create_task(one('bye', 'bye', [9, '']))
+            await asyncio.wait([t2], timeout=20)
+            for t in ts + [t2, pt]:
+                t.cancel()
+            return dict(res)
+        got = loop.run_until_complete(main())
+    finally:
+        sessions.close_loop(loop)
+    want = {}
+    for i, (m, a) in enumerate(calls):
+        want[str(i)] = (['value', a[0]] if m == 'val' else ['RPCError', a[0], a[1]] if m == 'err' else ['RPCError', -32603, 'internal server error'])
+    want['batch'] = [want[str(i)] for i in range(len(calls))]
+    want['bye'] = ['RPCError', 9, '']
+    return got, want
+
+
+def duplicate_id_batches(transport):
+    """batches whose member requests share an id (a peer may number them all 0): still one batch response, one entry per member"""
+    from aiorpcx import session
+    loop = sessions.new_loop()
+    try:
+        class Srv(session.RPCSession):
+            async def handle_request(self, request):
+                if request.method == 'fail':
+                    raise ValueError('x')
+                await asyncio.sleep(0.01 * len(request.args))
+                return 'pong'
+        sp, sft, srv = sessions.attach(Srv, 'server', transport)
+        batches = [[(0, 'ping'), (0, 'ping')], [('x', 'ping'), ('x', 'fail'), ('x', 'ping')], [(1, 'ping'), (1.0, 'ping')], [(None, 'ping'), (7, 'ping'), (7, 'fail')],
+                   [(3, 'ping')] * 5]
+
+        async def main():
+            await sessions.settle(3)
+            out = []
+            for b in batches:
+                n0 = len(sft.written)
+                sp.data_received(json.dumps([{'jsonrpc': '2.0', 'method': m, 'id': i} for i, m in b]).encode() + b'\n')
+                await asyncio.sleep(1.0)
+                msgs = sessions.sent_messages(sft, n0)
+                out.append({'batch': [[i, m] for i, m in b], 'responses': len(msgs),
+                            'entries': len(msgs[0]) if msgs and isinstance(msgs[0], list) else None})
+            return out
+        return loop.run_until_complete(main())
+    finally:
+        sessions.close_loop(loop)
+
+
+_c03_extra = C03.extra_checks
+
+
+def _extra_checks(self, ctx):
+    from harness.core import Failure
+    out = list(_c03_extra(self, ctx))
+    n = 0
+    for transport in ('rs', 'us'):
+        got, want = end_to_end(transport)
+        n += len(want)
+        bad = {k: [got.get(k), want[k]] for k in want if got.get(k) != want[k]}
+        if bad:
+            out.append(Failure({'kind': 'end_to_end', 'transport': transport}, {'differences_got_vs_expected': jv.to_plain(bad)},
+                               "through the library's own client session the caller did not receive the value / the handler's own code and message "
+                               f"for {sorted(bad)} (of {len(want)} calls, one batch of them included)"))
+        for o in duplicate_id_batches(transport):
+            n += 1
+            # (members that are notifications - id null under 2.0 - get no entry)
+            members = sum(1 for i, m in o['batch'] if i is not None)
+            if o['responses'] != 1 or o['entries'] != members:
+                out.append(Failure({'kind': 'duplicate_id_batch', 'transport': transport, 'batch': o['batch']}, o,
+                                   f"a batch whose members share an id got {o['responses']} responses with {o['entries']} entries; exactly one batch response with one entry per request member ({members})"))
+                break
+    ctx['extra_evals'] += n
+    ctx['notes'].append(f"server and client session of the library wired back to back (every handler behaviour, alone and in one batch) and batches with duplicate ids: {n} outcomes")
+    return out
+
+
+C03.extra_checks = _extra_checks
 PROP = C03()
